@@ -193,7 +193,15 @@ func c08Cases(j *Job, u *JobUnit) error {
 			}
 			Enumerate(m.In, inDims, devFor(inDims), func(p Point) bool {
 				if !violatesRules(p.Msg) {
-					emitCase("req:"+devClass(p), p.Msg, fullOut)
+					cls := "req:" + devClass(p)
+					for _, pv := range m.PathVars {
+						if fd := p.Msg.ProtoReflect().Descriptor().Fields().ByName(protoName(pv)); fd != nil && fd.Kind() == protoreflect.StringKind {
+							if v := p.Msg.ProtoReflect().Get(fd).String(); v == "." || v == ".." {
+								cls = "dotsegment"
+							}
+						}
+					}
+					emitCase(cls, p.Msg, fullOut)
 				}
 				return true
 			})
